@@ -98,9 +98,7 @@ func genInt(t *rapid.T) IntCase {
 		// the shape in which a hash failure is attributable: one adversary corrupting whole pieces and hanging up, nothing else corrupting
 		c.Adversaries = []speer.Behaviour{{CorruptAll: true, CloseOnPieceDone: true}}
 		c.AdvDial = []bool{rapid.Bool().Draw(t, "banDial")}
-		if c.WebSeed == 2 {
-			c.WebSeed = 0
-		}
+		c.WebSeed = 0 // a web seed that duplicates a piece a peer has completed also counts as wasted bytes: the probe could not tell
 		c.Cmds, c.FailWrites = nil, nil
 	}
 	c.EndgameMax = rapid.SampledFrom([]int{1, 2, 20}).Draw(t, "eg")
@@ -368,7 +366,9 @@ func runInt(c IntCase) core.Result {
 		}
 		// Attribution is only certain when nothing else can discard the piece before its hash is judged: no stop/start
 		// or failing write in the history (a stop drops pieces in flight), and no duplicate download of a piece.
-		if len(c.Cmds) > 0 || len(c.FailWrites) > 0 || c.EndgameMax != 1 || corrupting != 1 {
+		// ... and when the wasted-bytes counter can only mean "a piece failed its hash check": a web seed whose piece
+		// arrives after a peer has completed the same piece is counted as wasted too.
+		if len(c.Cmds) > 0 || len(c.FailWrites) > 0 || c.EndgameMax != 1 || corrupting != 1 || c.WebSeed != 0 {
 			return
 		}
 		if st0 := tor.Stats(); st0.Status != torrent.Downloading || st0.Bytes.Wasted == 0 {
